@@ -171,6 +171,16 @@ CLAIMED = {
         'Trusted: vlib/c19_lib.py (quadrature with error bounds, limits and sums accepted only when settled); everything '
         'else is inconclusive.',
         'DESIGN.md §2 C19'),
+    'C20': (
+        'Hypothesis while-programs with template and mutated invariants against a reference interpreter; VC strings against '
+        'a reference reader and the repo parser; HOL-level eval_Sem / vcg theorems against the interpreter and the kernel',
+        'Exploration. ~6000 cases: loop-free wp(c,Q) in s iff Q in exec(c,s) on 30 states; programs with annotated loops: '
+        'all VCs true on sampled and visited states (confirmed valid by z3 before a run counts against the property) implies '
+        'every terminating run from a pre-state ends in a post-state; every shown VC / invariant / guard must mean the same as '
+        'the computed object, its HOL form and its re-parse; eval_Sem final states equal the interpreter and its proofs check.',
+        'Trusted: the interpreter, HOL evaluator and reference reader of vlib/c20_lib.py; z3 only confirms candidate '
+        'violations (counter-models are re-evaluated).',
+        'DESIGN.md §2 C20'),
 }
 
 NOT_YET = {
